@@ -429,4 +429,8 @@ def run(chk):
     chk.guard("O19.5", "Translator.construct", c19.construct_rules, chk)
     chk.guard("O19.1", c19.TRANSLATOR, c19.structure_rules, chk)
     chk.guard("O19.1", c19.TRANSLATOR, c19.per_activation_state, chk)
+    # "loading a configuration ... yields": the loader's tag checks leave valid documents (merge keys, registered tags) alone
+    from . import c18
+
+    chk.guard("O18.10", "COBalDLoader", c18.loader_overrides_keep_valid_documents, chk)
     chk.guard("O4.1", util.PARTIAL, c04.partial_core, chk)
